@@ -102,6 +102,11 @@ def run(ctx):
         b = rng.choice(pool)
         k = rng.choice([0, 1, 1, 2, 3, 5, 8, 12])
         ops = [editgen.gen_op(rng, pool_hex) for _ in range(k)]
+        if rng.chance(1, 12):
+            # a container emptied completely (count 0 followed by the other container / the alignment bits):
+            # CM v2.9 with no block left while CM v4.0 follows, or the other way round
+            lv = rng.choice([[1, 2, 4, 5, 6, 255], [1, 2, 4, 5, 6, 255], [3, 8, 9, 10, 11]])
+            ops = ["rmlevel:%d" % x for x in lv] + ops[:2] + (["scene:%d" % rng.below(2)] if rng.chance(1, 2) else [])
         lines.append("rpu.ops %s %s" % (hx(b), ";".join(ops) if ops else "-"))
     mo, io_ = ctx.correspond("rpu.ops", lines, canon=c12.canon)
     # re-parse everything that was written
